@@ -44,4 +44,17 @@ PROPS["C18"] = {
     "assumptions": COMMON_ASSUMPTIONS,
 }
 
+PROPS["C19"] = {
+    "families": ["C19"],
+    "gen_deps": ["ofbase."],
+    "rule": "typed write scripts: every kind, every pair and triple of kinds, alignment after every length 0..23, random sequences of up to 12 writes "
+            "with boundary and random values, with and without trailing bytes; (base, offset) alignment pairs 0..40 x 0..40 (exhaustive mod 8, through a real "
+            "sliced decoder); Header.Decode on every length 0..16 with exact and spare capacity plus random buffers; raw read scripts on random buffers "
+            "(short, spare capacity, nested SliceDecoder up to depth 4). Non-trivial = not a panic / error outcome.",
+    "trivial_outputs": ["panic", "err", "-", "ok 0"],
+    "level_text": "Kernel-checked theorems over a hand model of Encoder/Decoder whose alignment arithmetic is the Int64 expression regenerated from Decoder.SkipAlign: round trip for ANY sequence of typed writes and any values (induction over the sequence, with arbitrary trailing bytes), exact widths of every put/read, alignment lands on the next multiple of 8 counted from the enclosing message's start, moves at most 7 and never backwards (for sliced decoders at any nesting depth via the Within invariant), Header.Decode on fewer than 8 bytes is an error and has no panic outcome. Tie: regenerated SkipAlign/Skip/Offset; the real Encoder/Decoder are run on generated scripts and compared with the model, including Go's slice-to-capacity semantics.",
+    "level_note": "Trusted: Lean kernel; ofvextract; OFV.Go.Slice (index checks len, re-slicing checks cap); the hand model of the read/put primitives is tied by the differential run only; offsets are assumed below 2^62 (Go int = Int64).",
+    "assumptions": COMMON_ASSUMPTIONS + ["buffer offsets below 2^62"],
+}
+
 NOT_YET = {}
